@@ -65,10 +65,15 @@ def get_graphql_queries(
 def get_graphql_schema_from_url(
     url: str, headers: Optional[Dict[str, str]] = None, verify_ssl: bool = True
 ) -> GraphQLSchema:
-    return build_client_schema(
-        introspect_remote_schema(url=url, headers=headers, verify_ssl=verify_ssl),
-        assume_valid=True,
+    introspection = introspect_remote_schema(
+        url=url, headers=headers, verify_ssl=verify_ssl
     )
+    try:
+        return build_client_schema(introspection, assume_valid=True)
+    except (TypeError, KeyError, AttributeError) as exc:
+        raise IntrospectionError(
+            f"Invalid or incomplete introspection result: {exc}"
+        ) from exc
 
 
 def introspect_remote_schema(
